@@ -576,7 +576,7 @@ CHECKS = {
               "In both tiers random histories on all 28 pairs x 3 routes additionally move an idle context's documented running total (and the model's) forward by whole blocks to just below a threshold, so the following segments cross it at every residue without hashing gigabytes (the expected digest is the reference hash of the submitted bytes padded with the adjusted total). Small random histories add the total_length check at every hand-back. "
               "distinct_nontrivial = distinct (family, threshold, running total mod 2 blocks, flags, above/below threshold)"),
         assumptions=TRUST + ["OpenSSL 3.0 EVP digests as oracle for multi-GiB streams"],
-        tasks=lambda tier: big_tasks(tier) + pairs_tasks("C15") + noarch_hash_tasks("C15", 3, tier, extra=["--jump", 1]) + ([dict(engine="hashmb", variant="plain", timeout=7000, args=["--prop", "C15", "--mode", "big", "--alg", alg, "--fam", f, "--thr", "decay", "--watchdog", 6900])
+        tasks=lambda tier: big_tasks(tier) + pairs_tasks("C15") + lanes_tasks("C15", tier) + noarch_hash_tasks("C15", 3, tier, extra=["--jump", 1]) + ([dict(engine="hashmb", variant="plain", timeout=7000, args=["--prop", "C15", "--mode", "big", "--alg", alg, "--fam", f, "--thr", "decay", "--watchdog", 6900])
                                                                       for alg, fl in (("sha1", ["sse", "avx", "avx2", "avx512", "sse_ni", "avx512_ni"]), ("sha256", ["sse", "avx", "avx2", "avx512", "sse_ni", "avx512_ni"]), ("sha512", ["sse", "avx", "avx2", "avx512"]),
                                                                                       ("md5", ["sse", "avx", "avx2", "avx512"]), ("sm3", ["avx2", "avx512"])) for f in fl] if tier == "thorough" else []),
     ),
